@@ -89,6 +89,15 @@ impl<A: VxIt> VxIt for EnumF<A> {
     fn next(&mut self) -> (r: Option<(usize, A::Item)>) { unimplemented!() }
 }
 impl<'a, T> SeqIter<'a, T> {
+    // further std adaptors on a slice iterator, by their documented meaning on the remaining items (trusted)
+    #[verifier::external_body]
+    pub fn take(self, n: usize) -> (r: Self) ensures r.r@ == (if n <= self.r@.len() { self.r@.take(n as int) } else { self.r@ }) { unimplemented!() }
+    #[verifier::external_body]
+    pub fn skip(self, n: usize) -> (r: Self) ensures r.r@ == (if n <= self.r@.len() { self.r@.skip(n as int) } else { Seq::<&'a T>::empty() }) { unimplemented!() }
+    #[verifier::external_body]
+    pub fn rev(self) -> (r: Self) ensures r.r@ == self.r@.reverse() { unimplemented!() }
+    #[verifier::external_body]
+    pub fn chain(self, other: Self) -> (r: Self) ensures r.r@ == self.r@ + other.r@ { unimplemented!() }
     pub fn enumerate(self) -> (r: EnumF<SeqIter<'a, T>>) ensures r.a == self, r.count@ == 0 { EnumF { a: self, count: Ghost(0) } }
 }
 /// the `hash_func` / `eq_func` fields (Rc<ManagedXValue<W, R, T>>; keeps the struct's type parameters in use)
@@ -96,6 +105,12 @@ pub struct ValP<W, R, T> { pub value: XValue, pub p: Ghost<(W, R, T)> }
 /// MappingBucket: Vec<(key, value)>
 pub struct Bucket<V> { pub v: Vec<(Val, V)> }
 impl<V> Bucket<V> {
+    #[verifier::external_body]
+    pub fn len(&self) -> (r: usize) ensures r == self.v@.len() { unimplemented!() }
+    #[verifier::external_body]
+    pub fn is_empty(&self) -> (r: bool) ensures r == (self.v@.len() == 0) { unimplemented!() }
+    #[verifier::external_body]
+    pub fn first(&self) -> (r: Option<&(Val, V)>) ensures r == (if self.v@.len() > 0 { Some(&self.v@[0]) } else { None }) { unimplemented!() }
     #[verifier::external_body]
     pub fn iter<'a>(&'a self) -> (r: SeqIter<'a, (Val, V)>)
         ensures r.r@.len() == self.v@.len(), self.v@.len() <= usize::MAX, forall|i: int| 0 <= i < self.v@.len() ==> *(#[trigger] r.r@[i]) == self.v@[i],
@@ -108,6 +123,12 @@ impl<V> Bucket<V> {
 /// SetBucket: Vec<element>
 pub struct SBucket { pub v: Vec<Val> }
 impl SBucket {
+    #[verifier::external_body]
+    pub fn len(&self) -> (r: usize) ensures r == self.v@.len() { unimplemented!() }
+    #[verifier::external_body]
+    pub fn is_empty(&self) -> (r: bool) ensures r == (self.v@.len() == 0) { unimplemented!() }
+    #[verifier::external_body]
+    pub fn first(&self) -> (r: Option<&Val>) ensures r == (if self.v@.len() > 0 { Some(&self.v@[0]) } else { None }) { unimplemented!() }
     #[verifier::external_body]
     pub fn iter<'a>(&'a self) -> (r: SeqIter<'a, Val>)
         ensures r.r@.len() == self.v@.len(), self.v@.len() <= usize::MAX, forall|i: int| 0 <= i < self.v@.len() ==> *(#[trigger] r.r@[i]) == self.v@[i],
